@@ -42,3 +42,43 @@ pub fn line(s: &str) {
         }
     }
 }
+
+static SAVED_ERR: Mutex<Option<std::fs::File>> = Mutex::new(None);
+
+/// Same for fd 2: library code logs save errors and injected panics to stderr.
+pub fn capture_stderr() {
+    let mut g = SAVED_ERR.lock().unwrap();
+    if g.is_some() {
+        return;
+    }
+    unsafe {
+        let dup = libc::dup(2);
+        if dup < 0 {
+            return;
+        }
+        let devnull = libc::open(b"/dev/null\0".as_ptr() as *const libc::c_char, libc::O_WRONLY);
+        if devnull >= 0 {
+            libc::dup2(devnull, 2);
+            libc::close(devnull);
+        }
+        *g = Some(std::fs::File::from_raw_fd(dup));
+    }
+}
+
+/// Print one diagnostic line on the real stderr.
+pub fn err(s: &str) {
+    let mut g = SAVED_ERR.lock().unwrap();
+    match g.as_mut() {
+        Some(f) => {
+            let _ = writeln!(f, "{}", s);
+        }
+        None => eprintln!("{}", s),
+    }
+}
+
+/// A handle on the real stdout / stderr for child processes.
+pub fn child_stdio() -> (std::process::Stdio, std::process::Stdio) {
+    let o = SAVED.lock().unwrap().as_ref().and_then(|f| f.try_clone().ok()).map(std::process::Stdio::from).unwrap_or_else(std::process::Stdio::inherit);
+    let e = SAVED_ERR.lock().unwrap().as_ref().and_then(|f| f.try_clone().ok()).map(std::process::Stdio::from).unwrap_or_else(std::process::Stdio::inherit);
+    (o, e)
+}
